@@ -3,7 +3,8 @@ C05 — isotopomer expansion preserves base structure, totals and dynamics.
 All theorems are about the executable model `MxlVerif/Model/C05.lean` (the same `def`s the
 driver runs).  Only property theorems and non-vacuity examples live here.
 -/
-import MxlVerif.Lemmas.C05Keys
+import MxlVerif.Lemmas.C05Int
+import MxlVerif.Lemmas.C05Raw
 import MxlVerif.Generated.C05Facts
 namespace Mxl.C05
 
@@ -349,6 +350,147 @@ theorem C05_query_at_position (lv : List (Name × Nat)) (x : Name) (ps : List Na
             refine ⟨u, ⟨hu, ?_⟩, rfl⟩
             intro p hp
             simp [List.getD_eq_getElem?_getD, hb p hp]
+
+/-- **label patterns**: `it.product(("0","1"), repeat=n)` lists every string of `n` label characters
+    exactly once — `2 ^ n` of them — for every `n`; `_generate_binary_labels` therefore names every
+    isotopomer of a compound once (and a compound without positions keeps its bare name) -/
+theorem C05_patterns_complete (n : Nat) (x : Name) :
+    (∀ w : Label, w ∈ patterns n ↔ w.length = n) ∧ (patterns n).Nodup ∧ (patterns n).length = 2 ^ n ∧
+    (binaryLabels x n).Nodup ∧
+    (n > 0 → ∀ m, m ∈ binaryLabels x n ↔ ∃ w : Label, w.length = n ∧ m = ⟨x, some w⟩) ∧
+    binaryLabels x 0 = [plain x] := by
+  refine ⟨fun w => mem_patterns, patterns_nodup n, patterns_length n, binaryLabels_nodup x n, ?_, rfl⟩
+  intro hn m
+  simp only [binaryLabels, hn, if_true, List.mem_map, mem_patterns]
+  constructor
+  · rintro ⟨w, hw, rfl⟩; exact ⟨w, hw, rfl⟩
+  · rintro ⟨w, hw, rfl⟩; exact ⟨w, hw, rfl⟩
+
+/-- `_unpack_stoichiometries` lists a compound once per unit of base stoichiometry: product
+    occurrences minus substrate occurrences is the net coefficient (coefficients of any magnitude,
+    reversible pairs, a compound listed on both sides) -/
+theorem C05_unpack_net (st : List (Name × Int)) (x : Name) :
+    (((unpackStoich st).2.count x : Int)) - ((unpackStoich st).1.count x : Int) = netStoich st x :=
+  unpack_net st x
+
+/-- **Python's index rule** (`rate_suffix[i]`, `substrates[pos]`): `-len ≤ i < len` reads position
+    `i` resp. `len + i`; every other integer raises `IndexError` -/
+theorem C05_index_rule (len : Nat) (i : Int) :
+    (∀ j, pyIndex len i = .ok j ↔
+      (0 ≤ i ∧ i < len ∧ (j : Int) = i) ∨ (i < 0 ∧ -(len : Int) ≤ i ∧ (j : Int) = len + i)) ∧
+    (∀ e, pyIndex len i = .error e → e = .indexError) :=
+  ⟨pyIndex_iff len i, fun _ h => pyIndex_error h⟩
+
+/-- **integer maps** (what the driver runs): `_create_isotopomer_reactions` with any list of
+    integers as the map raises `ValueError` when the map is shorter than the substrates' label
+    positions, else `IndexError` when some index lies outside `-N ≤ i < N` (`N` = length of the rate
+    suffix), else does exactly what it does with the map counted from the front — so every theorem
+    stated for `isotopomerReactions` holds for the integer entry point at the normalised map; a map
+    without negative indices is read unchanged -/
+theorem C05_integer_maps (lv : List (Name × Nat)) (r : BRxn) (lm : List Int) :
+    isotopomerReactionsI lv r lm =
+      (if lm.length < nSub lv r then .error .valueError
+       else (normMap (max (nSub lv r) (nProd lv r)) lm).bind (isotopomerReactions lv r)) ∧
+    (∀ e, normMap (max (nSub lv r) (nProd lv r)) lm = .error e → e = .indexError) ∧
+    (∀ lm' : List Nat, lm = lm'.map Int.ofNat →
+      isotopomerReactionsI lv r lm = isotopomerReactions lv r lm') := by
+  refine ⟨isotopomerReactionsI_eq lv r lm, ?_, ?_⟩
+  · intro e h
+    obtain ⟨i, _, hi⟩ := mapM_error_exists _ _ _ h
+    exact pyIndex_error hi
+  · rintro lm' rfl
+    exact isotopomerReactionsI_nat lv r lm'
+
+/-- non-vacuity: `[-1, 0]` on A(2) → B(2) is the swap `[1, 0]`; `[-3, 0]` is an `IndexError` -/
+example :
+    isotopomerReactionsI [("A", 2), ("B", 2)]
+        { name := "v", fn := listProd, args := ["A"], stoich := [("A", -1), ("B", 1)] } [-1, 0]
+      = isotopomerReactions [("A", 2), ("B", 2)]
+        { name := "v", fn := listProd, args := ["A"], stoich := [("A", -1), ("B", 1)] } [1, 0] ∧
+    isotopomerReactionsI [("A", 2), ("B", 2)]
+        { name := "v", fn := listProd, args := ["A"], stoich := [("A", -1), ("B", 1)] } [-3, 0]
+      = .error .indexError := ⟨rfl, rfl⟩
+
+/-- **structure of the built model** (integer maps): the reactions are the base reactions' groups in
+    base order — one reaction under its own name, reading totals, for a reaction without a map, the
+    isotopomer reactions for a mapped one —; parameters are kept; the variables are the blocks of
+    `C05_totals_preserved` in base order; one total `X__total` per listed compound summing exactly
+    its isotopomers -/
+theorem C05_model_structure {b : Base} {lv : List (Name × Nat)} {maps : List (Name × List Int)}
+    {il : List (Name × List Nat)} {m : LModel} (hb : buildModelI b lv maps il = .ok m) :
+    ∃ groups, b.rxns.mapM (buildRxnI lv maps) = .ok groups ∧ m.rxns = groups.flatten ∧
+      (∀ r ∈ b.rxns, maps.lookup r.name = none → buildRxnI lv maps r = .ok [unmappedRxn lv r]) ∧
+      (∀ r ∈ b.rxns, ∀ lm, maps.lookup r.name = some lm →
+        buildRxnI lv maps r = isotopomerReactionsI lv r lm) ∧
+      m.vars = b.vars.flatMap (fun kv => initBlock lv il kv.1 kv.2) ∧ m.pars = b.pars ∧
+      m.totals = lv.map (fun kn => (plain (kn.1 ++ "__total"), binaryLabels kn.1 kn.2)) := by
+  obtain ⟨groups, hg, hr, hv, hp, ht⟩ := buildModelI_rxns hb
+  refine ⟨groups, hg, hr, ?_, ?_, hv, hp, ht⟩
+  · intro r _ hl; simp [buildRxnI, hl, pure, Except.pure]
+  · intro r _ lm hl; simp [buildRxnI, hl]
+
+/-- **whole model, integer maps** (`C05_model_dynamics` for what the driver runs): every mapped
+    reaction mass action with a map covering the product atoms, unmapped reactions not touching
+    labelled compounds, the environment reading `X__total` as the sum of the isotopomers — the
+    derivatives of a compound's isotopomers add up to the base derivative at the totals -/
+theorem C05_model_dynamics_int {b : Base} {lv : List (Name × Nat)}
+    {maps : List (Name × List Int)} {il : List (Name × List Nat)} {m : LModel}
+    (hb : buildModelI b lv maps il = .ok m) (hr : ∀ r ∈ b.rxns, RxnOkI lv maps r) (σ : LName → Rat)
+    (hσ : ∀ k n, lv.lookup k = some n → σ (plain (k ++ "__total")) = totalOf σ k n) (x : Name) :
+    ((binaryLabels x (labelsOf lv x)).map (rhsOf m.rxns σ)).sum
+      = baseRhsOf b.rxns (fun a => σ (totalName lv a)) x := by
+  obtain ⟨groups, hg, hrx, _⟩ := buildModelI_rxns hb
+  rw [hrx, rhsOf_flatten_sum]
+  unfold baseRhsOf
+  have hfa := mapM_ok_forall₂ _ _ _ hg
+  exact forall₂_map_sum _ _ hfa (fun r grp hmem hgr => group_dynamicsI hgr (hr r hmem) σ hσ x)
+
+/-- **coefficients as the base model stores them** (`int | float | Derived`; what the driver runs,
+    `buildModelP`).  After repo commit "fix: LabelMapper accepts whole-number float coefficients ..."
+    `_unpack_stoichiometries` reads every whole number the same way, whether written `-1` or `-1.0`
+    (`intCoefs` on any such spelling returns the integers, and it succeeds on nothing else); the only
+    rejections are a `Derived` (`TypeError`) and a fractional float (`ValueError`), whichever comes
+    first, before the map is looked at; an unmapped reaction is passed through without being
+    unpacked; a mapped reaction whose coefficients are whole numbers gives exactly the isotopomer
+    reactions of the integer stoichiometry (so every theorem above applies to it); with no raw
+    coefficients listed the entry point is `buildModelI` -/
+theorem C05_raw_coefficients (lv : List (Name × Nat)) (maps : List (Name × List Int))
+    (raw : List (Name × List (Name × Coef))) (r : BRxn) :
+    (∀ l : List ((Name × Int) × Bool), intCoefs (l.map fun x => asRaw x.1 x.2) = .ok (l.map (·.1))) ∧
+    (∀ st ist, intCoefs st = .ok ist →
+      ∃ fl : List Bool, fl.length = ist.length ∧ st = (ist.zip fl).map fun x => asRaw x.1 x.2) ∧
+    (∀ st e, intCoefs st = .error e → e = .typeError ∨ e = .valueError) ∧
+    (∀ (pre : List ((Name × Int) × Bool)) k post,
+      intCoefs ((pre.map fun x => asRaw x.1 x.2) ++ (k, Coef.derived) :: post) = .error .typeError) ∧
+    (∀ (pre : List ((Name × Int) × Bool)) k q post, ((pyTrunc q : Int) : Rat) ≠ q →
+      intCoefs ((pre.map fun x => asRaw x.1 x.2) ++ (k, Coef.float q) :: post) = .error .valueError) ∧
+    (∀ lm st e, maps.lookup r.name = some lm → raw.lookup r.name = some st → intCoefs st = .error e →
+      buildRxnP lv maps raw r = .error e) ∧
+    (∀ lm (l : List ((Name × Int) × Bool)), maps.lookup r.name = some lm →
+      raw.lookup r.name = some (l.map fun x => asRaw x.1 x.2) →
+      buildRxnP lv maps raw r = isotopomerReactionsI lv { r with stoich := l.map (·.1) } lm) ∧
+    (maps.lookup r.name = none → buildRxnP lv maps raw r = .ok [unmappedRxn lv r]) ∧
+    (∀ b il, buildModelP b lv maps [] il = buildModelI b lv maps il) := by
+  refine ⟨intCoefs_integral, fun st ist h => intCoefs_ok h, fun st e h => intCoefs_error h,
+    fun pre k post => (intCoefs_first_bad pre k .derived post).1 rfl,
+    fun pre k q post hq => (intCoefs_first_bad pre k (.float q) post).2 q rfl hq,
+    ?_, ?_, ?_, fun b il => buildModelP_nil b lv maps il⟩
+  · intro lm st e hl hr he
+    simp only [buildRxnP, hl, hr, he, bind, Except.bind]
+  · intro lm l hl hr
+    simp only [buildRxnP, hl, hr, intCoefs_integral, bind, Except.bind]
+  · intro hl
+    simp [buildRxnP, hl, pure, Except.pure]
+
+/-- non-vacuity: `{"A": -1.0, "B": 1}` is read as `{"A": -1, "B": 1}`; `5/2` is refused with
+    `ValueError`, a `Derived` with `TypeError` -/
+example :
+    intCoefs [("A", .float (-1)), ("B", .int 1)] = .ok [("A", -1), ("B", 1)] ∧
+    intCoefs [("A", .int (-1)), ("B", .float (5/2))] = .error .valueError ∧
+    intCoefs [("A", .derived), ("B", .float (5/2))] = .error .typeError := by
+  have h : ((pyTrunc (5/2) : Int) : Rat) ≠ 5/2 := by decide +kernel
+  refine ⟨by rfl, ?_, by rfl⟩
+  simp [intCoefs, h, bind, Except.bind]
 
 /-- the facts regenerated from the current `label_map.py` by `translate/c05.py` are the ones the
     model is written for: every mirrored function has its modelled statement shape (no decorator,
